@@ -242,9 +242,11 @@ def goLE32 (b : Bytes) : Out Nat :=
 def goLE64 (b : Bytes) : Out Nat :=
   if 8 ≤ b.length then .ok (fromLE (b.take 8)) else .panic
 
-/-- `make([]byte, n)` for a Go `int` `n`. -/
-def goMake (n : Int) : Out Bytes :=
-  if n < 0 then .panic else .ok (zeros n.toNat)
+/-- `make([]byte, n)` for a Go `int` `n`: panics for a negative length; the result is `n` zero
+bytes, represented by its length (the executable model must not materialise a buffer just to
+overwrite it). -/
+def goMake (n : Int) : Out Nat :=
+  if n < 0 then .panic else .ok n.toNat
 
 /-- `Buffer.PeekID`. -/
 def peekIDP (b : Bytes) : Out Nat :=
